@@ -465,6 +465,8 @@ def key_units():
                   "up-p": [27, 91, 49, 59, 53, 65], "left-i": [27, 91, 63, 32, 47, 68],
                   "csi~": [27, 91, 51, 126], "csi@": [27, 91, 64], "csiE": [27, 91, 69], "csi[": [27, 91, 91],
                   "csi-long": [27, 91] + list(range(0x30, 0x40)) + list(range(0x20, 0x30)) + [0x48],
+                  "csi-300-left": [27, 91] + [0x31] * 300 + [68], "csi-255-up": [27, 91] + [0x3B] * 255 + [65],
+                  "csi-256-other": [27, 91] + [0x30] * 256 + [0x7E],
                   "esc": [27], "nul": [0], "bel": [7], "us": [31], "vt": [11], "ff": [12]})
         UNITS = u
     return UNITS
@@ -548,13 +550,16 @@ def c04(ctx):
     ctx.sample({"tlc_path_bytes": gpaths[len(gpaths) // 2]})
     # all sequences of key units up to a bound
     units = key_units()
-    names = sorted(units)
+    long_units = sorted(n for n in units if len(units[n]) > 100)
+    names = sorted(n for n in units if n not in long_units)
     maxlen = 2 if ctx.tier == "quick" else 3
     seqs = [[]]
     frontier = [[]]
     for _ in range(maxlen):
         frontier = [s + [n] for s in frontier for n in names]
         seqs += frontier
+    # escape sequences with hundreds of parameter bytes, between other units
+    seqs += [[a, l, b] for l in long_units for a in ("cr", "c61", "up") for b in ("lf", "c5B", "c61")]
     for s in seqs:
         b = []
         for n in s:
@@ -649,6 +654,13 @@ def c05(ctx):
     prof = {"cmd": [0, 1, 2, 3, 4, 5, 6, 7, 8, 16, 64], "hcap": [0, 4, 16], "sets": ALLSETS, "steps": (10, 80),
             "alphabet": ALLCH + sessions.W1, "w": {"char": 40, "bs": 14, "left": 14, "right": 10, "up": 3, "down": 2, "tab": 3, "enter": 3, "word": 3}}
     scripts += sessions.gen_sessions(rng, 600 if q else 20000, prof, sid0=len(scripts) + 1)
+    # lines of more than 255 characters (counters must not be narrower than the buffer)
+    for k in range(3 if q else 60):
+        n = rng.choice([256, 257, 260] if q else [255, 256, 257, 260, 300, 513])
+        chars = [rng.choice([0x61, 0x62, 0xE9, 0x4E2D]) for _ in range(n)]
+        items = ["".join(chr(c) for c in chars)] + ["<left>"] * rng.randint(1, 12) + ["<right>"] * 14 + ["X", "<bs>", "<bs>", "<left>", "<right>", "<right>", "Y", "<enter>"]
+        scripts.append({"sid": 6000001 + k, "cfg": {"cmd": rng.choice([600, 1024, 2100]), "hcap": rng.choice([0, 700]), "set": "raw", "prompt": 0},
+                        "steps": scen(items)})
     tabs = c11_systematic(ctx)
     for x in tabs:
         x["steps"] = x["steps"] + scen(["<right>", "x", "<left>", "<bs>"])
@@ -1465,6 +1477,8 @@ FOLLOW_UP = scen(["x", "<enter>", "<up>", "<enter>", "ok", "<enter>"], {"chunks"
 # the same key again / Enter straight away: whatever the failed call left behind is used as it stands
 FOLLOW_UP2 = scen(["<enter>", "<left>", "y", "<bs>", "<right>", "<enter>", "<up>", "<enter>"], {"chunks": [{"m": "wl", "t": [122]}]})
 FOLLOW_UP3 = scen(["<right>", "<bs>", "z", "<enter>", "<down>", "<up>", "<enter>"], {"chunks": [{"m": "w", "t": [122]}]})
+# LF first: if the failed call was the CR of a CR LF pair, the LF still belongs to it
+FOLLOW_UP4 = [{"ev": "byte", "b": 10}] + scen(["w", "<enter>", "<up>", "<enter>"], {"chunks": [{"m": "w", "t": [122]}]})
 
 
 @check("C14")
@@ -1507,7 +1521,7 @@ def c14(ctx):
                     else:
                         steps = [dict(st) for st in sc["steps"][:i]]
                         steps[i - 1]["fail"] = {"at": k, "mode": mode}
-                        variants.append({"sid": sid, "cfg": sc["cfg"], "steps": steps + (FOLLOW_UP, FOLLOW_UP2, FOLLOW_UP3)[(i + k) % 3]})
+                        variants.append({"sid": sid, "cfg": sc["cfg"], "steps": steps + (FOLLOW_UP, FOLLOW_UP2, FOLLOW_UP3, FOLLOW_UP4)[(i + k) % 4]})
     ctx.extra["scenarios"] = len(scenarios)
     ctx.extra["fault_positions"] = npos
     ctx.extra["faulted_runs"] = len(variants)
@@ -1651,7 +1665,7 @@ VALUE_POOL = {
     "u128": ["340282366920938463463374607431768211455", "340282366920938463463374607431768211456", "4"],
     "i128": ["-170141183460469231731687303715884105728", "170141183460469231731687303715884105728", "6"],
     "usize": ["0", "-1", "18446744073709551615"], "isize": ["-5", "x1", "8"],
-    "f32": ["1.5", "1", "-0.25", "nan", "1e3", "x"], "f64": ["2.5", "inf", "1e400", "--"],
+    "f32": ["1.5", "1", "-0.25", "nan", "1e3", "x", "1.0000001788139343", "16777217.000000001", "0.1", "3.4028236e38"], "f64": ["2.5", "inf", "1e400", "--"],
     "char": ["a", "ж", "ab", "😀"], "bool": ["true", "false", "1", "yes"],
     "str": ["text", "two words", "ж中😀", "a\"b"],
 }
